@@ -23,11 +23,26 @@ Oracle (the property's own statement, independent of the model):
    later result equals that of a twin accumulator whose results are never touched.
    The FillRequest adapter has no model (its request() yields values computed during an earlier fill): its cases
    are judged by this oracle only.
-The oracle compares values, exceptions and the id() graph of dict/list/tuple objects; it does not compare private
-attributes of the elements.
+The oracle compares values, exceptions and the id() graph of the mutable objects (dict, list, deque, bytearray, set and
+their subclasses, the user objects of this module, through tuples / frozensets / items / attributes); it does not
+compare private attributes of the elements, nor the classes of objects (values are rendered by content).
+
+Kinds of objects (adversary round): data and contexts are not only dict / list / tuple / scalars.  A case names, as
+{"o": [kind, content]}, user objects with mutable attributes (instance dictionary or slots; hashable by identity),
+dict subclasses (lena.context.Context, OrderedDict, a user class), list subclasses, deques, bytearrays, sets and
+frozensets of user objects, tuples that hold mutable objects — as the data of a flow value, nested in data, as a
+context and nested in contexts.  The model is given the contents without the classes (`strip`): for it an object is an
+identity and a content.  The user mutators `touch` / `touchc` change every mutable object reachable from the data /
+the context in place (a shallow or partial copy handed to another branch, or yielded by an accumulator, then shows).
+lena.structures.NumpyHistogram is exercised with a pure-Python stand-in for numpy.histogram when numpy is not installed.
 """
+import bisect
+import collections
 import copy
 import itertools
+import numbers
+import sys
+import types
 import warnings
 from decimal import Decimal
 from fractions import Fraction
@@ -61,6 +76,10 @@ THEOREMS = [
     "Lena.C04.zip_compute_fresh",
     "Lena.C04.split_compute_fresh",
     "Lena.C04.split_hist_fresh",
+    # sentence 2 for NumpyHistogram (fill/request, reset=False / reset=True) and what its request() does to the heap
+    "Lena.C04.numpyHist_yield_fresh",
+    "Lena.C04.numpyHist_reset_yield_fresh",
+    "Lena.C04.numpyHist_request_spec",
     # sentence 2, purpose clause: downstream in-place updates change no later result
     "Lena.C04.accOps_tidy_instance",
     "Lena.C04.downstream_updates_harmless",
@@ -81,6 +100,13 @@ AUX_THEOREMS = [
     "Lena.C04.schedOKb_iff",
     "Lena.C04.fillOKb_iff",
     "Lena.C04.listEqb_iff",
+    "Lena.C04.withReset_req",
+    "Lena.C04.withReset_upd",
+    # the user mutators touch / touchc are visible on every container they reach
+    "Lena.C04.touchList_length",
+    "Lena.C04.touch_visible_list",
+    "Lena.C04.lookup_dictSet_self",
+    "Lena.C04.touch_marks_dict",
 ]
 TRUSTED = [
     "Lean 4.33.0 kernel; axioms limited to propext, Classical.choice, Quot.sound (audited by #print axioms on every run)",
@@ -91,8 +117,15 @@ TRUSTED = [
     "copy.deepcopy as transcribed (new objects, same contents, one memo per call); a context is ONE cell of the model, so "
     "deep versus shallow copying of what is nested in a context is not expressible in the model: that nested objects "
     "are never shared rests on the harness alone (nested_sharing / mutable_ids on every real run)",
-    "mutable_ids follows dict, list and tuple (values and keys' values); it does not look into sets, deques or attributes "
-    "of other objects — contexts are generated from dict / list / tuple / scalars only",
+    "mutable_ids follows dict, list, deque, bytearray, set (and subclasses), tuple, frozenset and the attributes of the "
+    "user objects of the harness (instance dictionary or slots); it does not look into other objects (the histogram / "
+    "Graph objects that accumulators yield as data are opaque; dictionary keys are strings)",
+    "the class of an object is abstracted: the model and the renderings know an object by identity and content (a "
+    "dict subclass or a user object is the dictionary of its items / attributes, a list-like object a list, a set a "
+    "tuple of its members); Python's == on the generated containers does not look at the class either",
+    "numpy is not installed in /venv: lena.structures.NumpyHistogram is run with a stand-in module whose only function "
+    "is a pure-Python numpy.histogram(data, bins=edges) (NumpyHistogram calls nothing else); with a real numpy the "
+    "same cases run on it",
     "the driver's tests schedOKb / fillOKb decide SchedOK / FillOK for an equality test of skeletons that decides equality "
     "(schedOKb_iff, fillOKb_iff); the driver takes equality of the printed skeletons",
     "JSON line protocol encoders (harness/props/c04.py, drivers/C04.lean)",
@@ -129,6 +162,14 @@ ASSUMPTIONS = [
     "during an earlier fill when buffer_output is set) has no model: it is covered by the oracle on the real code only "
     "(identity of yielded contexts, mutated run versus twin). downstream_updates_harmless is proved for the accumulators "
     "themselves (accOps), not for sequences with elements in front (the generic form needs `Tidy` for them).",
+    "NumpyHistogram: bins given explicitly ([0, 1, 2, 3, 4]); request() with reset=True is modelled as the request() of "
+    "the model followed by reset() (numpy_histogram.py:69-70), validated by the correspondence on the real object",
+    "Zip compares the contexts its branches yield with ==: contexts that hold sets of objects hashed by identity, or "
+    "already a 'zip' entry, are not generated for Zip",
+    "adversary candidate 8 (Zip._fill hands the caller's value itself to the last branch, as Split._fill does) is "
+    "outside the statement: every branch still computes what it computes alone and no branch sees another's mutation "
+    "in an alias-free flow; that the caller's values stay untouched is promised for no last branch (Split works on the "
+    "originals there by design). It is reported as a correspondence disagreement, no-failing-input-found (intended)",
     "split_hist_fresh / acc_yield_fresh: the values filled exist when they are filled (hypotheses FilledOld / hin) — true "
     "of every Python program; downstream_updates_harmless: the updates are confined to objects of values yielded earlier, "
     "and no earlier result is filled again (refilling an updated result legitimately changes what follows)",
@@ -140,9 +181,17 @@ RULE = ("split cases: 0-4 branches of the four kinds (given as explicit sequence
         "with nested contexts incl. tuples of dicts and lists of dicts, with list or dict data), bufsize in "
         "{1,2,3,len,len+1,1000,None}, driven by run, by fill+compute/request and through Zip._fill; Split built with and "
         "without the copy_buf keyword (default); copy_buf=False and aliased flows for the correspondence only; every branch "
-        "starts with a probe that records whether it was handed the caller's objects. accumulator cases: every accumulator "
+        "starts with a probe that records whether it was handed the caller's objects. Objects: data and contexts are "
+        "dict / list / tuple / scalars and, named by class in the case, user objects with mutable attributes (instance "
+        "dictionary, slots; hashable), dict subclasses (lena.context.Context, OrderedDict, user class), list subclass, deque, "
+        "bytearray, set / frozenset of user objects, tuples and namedtuples holding mutable objects, dictionaries nested 8 deep, nested in each other (data_shapes: 18 "
+        "shapes of data, ctx_shapes: 20 shapes of context; every shape x run/fill/zip with branches that change everything "
+        "reachable in place, and every accumulator kind x every non-plain context shape, are enumerated in both tiers: "
+        "kind_cases); user mutators touch / touchc (every reachable mutable object changed in place). "
+        "accumulator cases: every accumulator "
         "kind (Sum, DSum, Count, Mean with five kinds of sum_seq incl. Split([Sum, Count, Count(, Count)]), "
-        "VarianceMeanCount, Vectorize of one element, of a list and of a multi-valued Mean, Histogram, SplitIntoBins of Sum "
+        "VarianceMeanCount, Vectorize of one element, of a list and of a multi-valued Mean, Histogram, NumpyHistogram with "
+        "and without reset (fill/request), SplitIntoBins of Sum "
         "and of Split(k Sums) with under/overflow data, Graph with and without an initial context, StoreFilled in both "
         "modes, GroupBy, user fill/request elements, Zip of 1-3 accumulators with and without fields, FillComputeSeq, the "
         "FillCompute and FillRequest adapters, Split used through its common-type methods) x histories of up to 8 "
@@ -160,7 +209,94 @@ warnings.filterwarnings("ignore")
 # ----------------------------------------------------------------------------------------------
 # plain values  <->  the JSON encoding of the driver: int | str | [list] | {"t":[..]} | {"d":{..}} | {"q":[n,d]}
 
+class UserObj(object):
+    """user objects in a flow (as in lena's tutorials: an event with mutable attributes).  Equal when their attributes are
+    equal, hashable by identity (a mutable object that is hashable)."""
+    __slots__ = ()
+
+    def __eq__(self, other):
+        return type(other) is type(self) and obj_attrs(self) == obj_attrs(other)
+
+    def __ne__(self, other):
+        return not self == other
+
+    __hash__ = object.__hash__
+
+
+class Rec(UserObj):
+    """attributes in the instance dictionary"""
+
+    def __init__(self, **kw):
+        self.__dict__.update(kw)
+
+
+class Slot(UserObj):
+    """attributes in slots (no instance dictionary)"""
+    __slots__ = ("x", "hits", "inner", "m", "a", "b", "c")
+
+
+class MyDict(dict):
+    pass
+
+
+class MyList(list):
+    pass
+
+
+def obj_attrs(o):
+    if hasattr(o, "__dict__"):
+        return dict(vars(o))
+    return {k: getattr(o, k) for k in type(o).__slots__ if hasattr(o, k)}
+
+
+# the classes of mutable objects a case can name: {"o": [kind, content]} in the JSON of a case
+DICT_KINDS = ("rec", "slot", "mydict", "odict", "lctx")
+LIST_KINDS = ("mylist", "deque", "bytes")
+SET_KINDS = ("set", "fset", "ntup")     # rendered like tuples: the harness changes their members, never the container
+Pt = collections.namedtuple("Pt", "a b")
+LISTLIKE = (list, collections.deque)
+ROOT_TYPES = (dict, list, collections.deque, bytearray, set, UserObj)
+
+
+def make_obj(kind, content):
+    if kind == "rec":
+        return Rec(**content)
+    if kind == "slot":
+        o = Slot()
+        for k, v in content.items():
+            setattr(o, k, v)
+        return o
+    if kind == "mydict":
+        return MyDict(content)
+    if kind == "odict":
+        return collections.OrderedDict(content)
+    if kind == "lctx":
+        # the dict subclass that lena's own element lena.context.Context() puts into the flow
+        import lena.context
+        return lena.context.Context(content)
+    if kind == "mylist":
+        return MyList(content)
+    if kind == "deque":
+        return collections.deque(content)
+    if kind == "bytes":
+        return bytearray(content)
+    if kind == "set":
+        return set(content)
+    if kind == "fset":
+        return frozenset(content)
+    if kind == "ntup":
+        return Pt(*content)
+    raise ValueError(kind)
+
+
+def O(kind, content):
+    return {"o": [kind, content]}
+
+
 def enc(v):
+    """plain rendering of a value: by content, not by class (a dict subclass or a user object is rendered as the
+    dictionary of its items / attributes, every list-like object as a list): the model knows the identity and the
+    content of an object, not its class, and Python's == on these containers does not look at the class either"""
     if isinstance(v, bool):
         return int(v)
     if isinstance(v, int):
@@ -169,10 +305,14 @@ def enc(v):
         return v
     if isinstance(v, dict):
         return {"d": {str(k): enc(x) for k, x in v.items()}}
-    if isinstance(v, list):
+    if isinstance(v, LISTLIKE):
         return [enc(x) for x in v]
+    if isinstance(v, bytearray):
+        return [int(x) for x in v]
     if isinstance(v, tuple):
         return {"t": [enc(x) for x in v]}
+    if isinstance(v, UserObj):
+        return {"d": {k: enc(x) for k, x in obj_attrs(v).items()}}
     if isinstance(v, Decimal):
         return int(v) if v == int(v) else {"obj": str(v)}
     if v is None:
@@ -180,6 +320,10 @@ def enc(v):
     if isinstance(v, float):
         fr = Fraction(v)
         return {"float": [fr.numerator, fr.denominator]}
+    if isinstance(v, numbers.Integral):
+        return int(v)
+    if isinstance(v, (set, frozenset)):
+        return {"t": sorted((enc(x) for x in v), key=repr)}
     return {"obj": type(v).__name__}
 
 
@@ -201,11 +345,98 @@ def dec(j):
         return j
     if isinstance(j, list):
         return [dec(x) for x in j]
+    if "o" in j:
+        kind, content = j["o"]
+        return make_obj(kind, dec(content))
     if "d" in j:
         return {k: dec(x) for k, x in j["d"].items()}
     if "t" in j:
         return tuple(dec(x) for x in j["t"])
     raise ValueError(j)
+
+
+def strip(j):
+    """the JSON of a case without the classes of its objects: what the model driver is given"""
+    if isinstance(j, list):
+        return [strip(x) for x in j]
+    if isinstance(j, dict):
+        if "o" in j and len(j) == 1:
+            if j["o"][0] in SET_KINDS:
+                return {"t": strip(j["o"][1])}
+            return strip(j["o"][1])
+        return {k: strip(v) for k, v in j.items()}
+    return j
+
+
+def has_kind(j, kinds):
+    """does the JSON of a case name an object of one of these kinds"""
+    if isinstance(j, list):
+        return any(has_kind(x, kinds) for x in j)
+    if isinstance(j, dict):
+        if "o" in j and len(j) == 1:
+            return j["o"][0] in kinds or has_kind(j["o"][1], kinds)
+        return any(has_kind(v, kinds) for v in j.values())
+    return False
+
+
+def kinds_in(j, acc=None):
+    """the kinds of objects a case names"""
+    acc = set() if acc is None else acc
+    if isinstance(j, list):
+        for x in j:
+            kinds_in(x, acc)
+    elif isinstance(j, dict):
+        if "o" in j and len(j) == 1:
+            acc.add(j["o"][0])
+            kinds_in(j["o"][1], acc)
+        else:
+            for v in j.values():
+                kinds_in(v, acc)
+    return acc
+
+
+def _jd(j):
+    """the {key: json} table of an encoded dictionary-like object"""
+    return j["o"][1]["d"] if "o" in j else j["d"]
+
+
+def children(obj):
+    """the objects directly inside a container / user object"""
+    if isinstance(obj, dict):
+        return list(obj.values())
+    if isinstance(obj, UserObj):
+        return list(obj_attrs(obj).values())
+    if isinstance(obj, (list, collections.deque, tuple, set, frozenset)):
+        return list(obj)
+    return []
+
+
+def has_mutable(obj):
+    if isinstance(obj, ROOT_TYPES):
+        return True
+    if isinstance(obj, (tuple, frozenset)):
+        return any(has_mutable(x) for x in obj)
+    return False
+
+
+def is_root(x):
+    """a root object of a flow value: a mutable object, or a tuple that holds one (copy.deepcopy makes a new tuple then)"""
+    return isinstance(x, ROOT_TYPES) or (isinstance(x, (tuple, frozenset)) and has_mutable(x))
+
+
+def deep_touch(obj, v):
+    """user mutation in place of everything reachable: first the children, then the object itself"""
+    if isinstance(obj, bytearray):
+        obj.append(v)
+        return
+    for x in children(obj):
+        deep_touch(x, v)
+    if isinstance(obj, dict):
+        obj["m"] = v
+    elif isinstance(obj, UserObj):
+        setattr(obj, "m", v)
+    elif isinstance(obj, LISTLIKE):
+        obj.append(v)
 
 
 # ----------------------------------------------------------------------------------------------
@@ -225,7 +456,7 @@ class Tag(object):
 
 
 class AppendData(object):
-    """user element: mutates list data in place."""
+    """user element: mutates list-like data (list, list subclass, deque, bytearray) in place."""
 
     def __init__(self, v):
         self._v = v
@@ -233,13 +464,13 @@ class AppendData(object):
     def __call__(self, value):
         import lena.flow
         data = lena.flow.get_data(value)
-        if isinstance(data, list):
+        if isinstance(data, LISTLIKE + (bytearray,)):
             data.append(self._v)
         return value
 
 
 class SetData(object):
-    """user element: mutates dictionary data in place."""
+    """user element: mutates dictionary data (an item) or a user object (an attribute) in place."""
 
     def __init__(self, key, v):
         self._key, self._v = key, v
@@ -249,7 +480,34 @@ class SetData(object):
         data = lena.flow.get_data(value)
         if isinstance(data, dict):
             data[self._key] = self._v
+        elif isinstance(data, UserObj):
+            setattr(data, self._key, self._v)
         return value
+
+
+class TouchData(object):
+    """user element: changes in place every mutable object reachable from the data (a calibration of an event)."""
+
+    def __init__(self, v):
+        self._v = v
+
+    def __call__(self, value):
+        import lena.flow
+        deep_touch(lena.flow.get_data(value), self._v)
+        return value
+
+
+class TouchContext(object):
+    """user element: changes in place every mutable object reachable from the context."""
+
+    def __init__(self, v):
+        self._v = v
+
+    def __call__(self, value):
+        import lena.flow
+        data, context = lena.flow.get_data_context(value)
+        deep_touch(context, self._v)
+        return (data, context)
 
 
 class EndMark(object):
@@ -335,7 +593,7 @@ class Probe(object):
 
     def __call__(self, value):
         d, c = split_value(value)
-        roots = [x for x in (d, c) if isinstance(x, (dict, list))]
+        roots = [x for x in (d, c) if is_root(x)]
         if not roots:
             self._rec[self._i].append(None)
         else:
@@ -378,6 +636,10 @@ def build_step(s, in_fill):
         return AppendData(s["v"])
     if k == "setd":
         return SetData(s["key"], s["v"])
+    if k == "touch":
+        return TouchData(s["v"])
+    if k == "touchc":
+        return TouchContext(s["v"])
     if k == "count":
         c = lena.flow.Count(s["name"])
         return lena.core.FillInto(c) if in_fill else c
@@ -386,6 +648,28 @@ def build_step(s, in_fill):
     if k == "emit":
         return EndMark()
     raise ValueError(k)
+
+
+def _np_histogram(a, bins=10, **kwargs):
+    """pure-Python stand-in for numpy.histogram(data, bins=edges) with explicit edges"""
+    edges = list(bins)
+    counts = [0] * (len(edges) - 1)
+    for x in a:
+        if edges[0] <= x <= edges[-1]:
+            counts[min(bisect.bisect_right(edges, x) - 1, len(counts) - 1)] += 1
+    return counts, edges
+
+
+def _ensure_numpy():
+    """NumpyHistogram imports numpy in __init__ and only calls numpy.histogram(self._data, bins=...): when numpy is not
+    installed a minimal stand-in module is registered, so that this framework accumulator can be exercised at all"""
+    try:
+        import numpy  # noqa: F401
+    except ImportError:
+        np = types.ModuleType("numpy")
+        np.histogram = _np_histogram
+        np.__lena_verif_stand_in__ = True
+        sys.modules["numpy"] = np
 
 
 def build_acc(a, heap=None):
@@ -420,6 +704,9 @@ def build_acc(a, heap=None):
         return lena.math.Vectorize([lena.math.Sum(), lena.math.Mean()])
     if k == "histogram":
         return lena.structures.Histogram([0, 1, 2, 3, 4])
+    if k == "nphist":
+        _ensure_numpy()
+        return lena.structures.NumpyHistogram(bins=[0, 1, 2, 3, 4], reset=a["reset"])
     if k == "sib":
         return lena.structures.SplitIntoBins(lena.math.Sum(), lena.variables.Variable(a["var"], lambda x: x),
                                              list(range(a["lo"], a["hi"] + 1)))
@@ -473,7 +760,7 @@ ORACLE_ONLY = ("fillrequest",)
 ALIASING_BY_SPEC = ("store", "keeplast", "reqstore", "store_group", "groupby")
 GROUP_KINDS = ("store_group", "groupby")
 HAS_RESET = ("sum", "dsum", "count", "vmc", "vectorize", "vec_list", "histogram", "store", "store_group", "groupby",
-             "graph")
+             "graph", "nphist")
 
 
 class GroupSnap(object):
@@ -496,7 +783,23 @@ def model_acc(a):
     """the accumulator as the model driver sees it (an adapter that only forwards is its element)"""
     if a["a"] == "fillcompute":
         return model_acc(a["of"])
+    if a["a"] == "nphist":
+        return {"a": "nphist"}
     return a
+
+
+def model_hist(case):
+    """the history as the model driver sees it: NumpyHistogram(reset=True).request() is the request() of the model
+    followed by reset() (numpy_histogram.py:69-70: `if self._reset: self.reset()` after the context was made)"""
+    hist = case["hist"]
+    if case["acc"]["a"] == "nphist" and case["acc"]["reset"]:
+        out = []
+        for op in hist:
+            out.append(op)
+            if "r" in op or "c" in op:
+                out.append({"reset": 1})
+        return out
+    return hist
 
 
 def build_branch(i, sp, log, probe=None):
@@ -548,28 +851,21 @@ def split_value(v):
 
 
 def mutable_ids(obj, acc=None, keep=None):
-    """ids of all dicts and lists reachable from obj (through tuples, lists, dicts and instance attributes of
-    lena structures are NOT followed: data objects are opaque)"""
+    """ids of all mutable objects reachable from obj: dictionaries, lists, deques, bytearrays, sets (and their
+    subclasses) and the user objects of this module, through tuples, frozensets, items and attributes.  Instance
+    attributes of lena structures (histogram, Graph) are NOT followed: data objects of accumulators are opaque."""
     if acc is None:
         acc = set()
-    if isinstance(obj, dict):
+    if isinstance(obj, (tuple, frozenset)):
+        for v in obj:
+            mutable_ids(v, acc, keep)
+    elif isinstance(obj, ROOT_TYPES):
         if id(obj) in acc:
             return acc
         acc.add(id(obj))
         if keep is not None:
             keep.append(obj)
-        for v in obj.values():
-            mutable_ids(v, acc, keep)
-    elif isinstance(obj, list):
-        if id(obj) in acc:
-            return acc
-        acc.add(id(obj))
-        if keep is not None:
-            keep.append(obj)
-        for v in obj:
-            mutable_ids(v, acc, keep)
-    elif isinstance(obj, tuple):
-        for v in obj:
+        for v in children(obj):
             mutable_ids(v, acc, keep)
     return acc
 
@@ -589,7 +885,8 @@ class Renderer(object):
         return self.num[id(obj)]
 
     def data(self, d):
-        if isinstance(d, (list, dict)):
+        # (the data of what an accumulator yields is opaque: a tuple built by Vectorize / Zip is not an object of the flow)
+        if is_root(d) and not (self.data_opaque is not None and isinstance(d, tuple)):
             return {"cell": self.tok(d), "v": enc(d)}
         if self.data_opaque is not None:
             return self.data_opaque(d)
@@ -615,13 +912,13 @@ def nested_sharing(values):
             continue
         d, c = split_value(v)
         for r in (d, c):
-            if isinstance(r, (dict, list)):
+            if is_root(r):
                 roots[id(r)] = r
     owner = {}
     bad = 0
     for rid, r in roots.items():
         inner = set()
-        for x in (r.values() if isinstance(r, dict) else r):
+        for x in children(r):
             mutable_ids(x, inner)
         for i in inner:
             if i in roots or (i in owner and owner[i] != rid):
@@ -727,7 +1024,7 @@ def run_split(case):
     for v in flow:
         d, c = split_value(v)
         for x in (d, c):
-            if isinstance(x, (dict, list)):
+            if is_root(x):
                 orig_ids.add(id(x))
     fills = [[] for _ in case["branches"]]
     try:
@@ -794,7 +1091,7 @@ def _acc_data(kind):
             return "vmc"
         if kind in ("vectorize", "vec_list", "vec_multi"):
             return "vec"
-        if kind in ("histogram", "sib", "sib_multi"):
+        if kind in ("histogram", "sib", "sib_multi", "nphist"):
             return "hist"
         if kind == "zip" and isinstance(d, tuple):
             return {"t": [elem(x) for x in d]}
@@ -803,18 +1100,21 @@ def _acc_data(kind):
 
 
 def _deep_mutate(ctx, k=0):
-    """arbitrary in-place mutation of a yielded context: every dict gets a key, every list an element"""
+    """arbitrary in-place mutation of a yielded context: every dictionary gets a key, every list-like object an
+    element, every user object an attribute — at every depth"""
+    if isinstance(ctx, bytearray):
+        ctx.append(k % 256)
+        return
+    for v in children(ctx):
+        _deep_mutate(v, k)
     if isinstance(ctx, dict):
-        for v in list(ctx.values()):
-            _deep_mutate(v, k)
         ctx["__mut%d" % k] = {"x": [k]}
-    elif isinstance(ctx, list):
-        for v in ctx:
-            _deep_mutate(v, k)
+    elif isinstance(ctx, LISTLIKE):
         ctx.append("__mut%d" % k)
-    elif isinstance(ctx, tuple):
-        for v in ctx:
-            _deep_mutate(v, k)
+    elif isinstance(ctx, UserObj):
+        setattr(ctx, "m", ["__mut", k])
+    elif isinstance(ctx, set):
+        ctx.add("__mut%d" % k)
 
 
 def _plain(v):
@@ -965,11 +1265,13 @@ def run_impl(case):
 
 
 def model_requests(case):
+    # the model is given the contents of the objects, not their classes (strip)
     if case["op"] == "split":
-        return [dict({k: case[k] for k in ("op", "mode", "branches", "bufsize", "copy_buf", "heap", "flow")}, check=True)]
+        return [dict({k: case[k] for k in ("op", "mode", "branches", "bufsize", "copy_buf", "flow")},
+                     heap=strip(case["heap"]), check=True)]
     if case["acc"]["a"] in ORACLE_ONLY:
         return []
-    return [{"op": "acc", "acc": model_acc(case["acc"]), "heap": case["heap"], "hist": case["hist"]}]
+    return [{"op": "acc", "acc": model_acc(case["acc"]), "heap": strip(case["heap"]), "hist": model_hist(case)}]
 
 
 def _norm_data(kind, dj, case):
@@ -977,6 +1279,9 @@ def _norm_data(kind, dj, case):
 
 
 def compare(case, res, replies):
+    if "__timeout__" in res:
+        # the watchdog of harness.common ended the real run (reported by the oracle channel): nothing to compare
+        return None
     m = model_floats(replies[0])
     if "err" in m:
         return "model driver error: %s" % m["err"]
@@ -1100,7 +1405,7 @@ NAMES = ["a", "b", "c"]
 
 
 def gen_step(rng, kind, last):
-    ks = ["var", "upd", "mkfn", "tag", "app", "setd"]
+    ks = ["var", "upd", "mkfn", "tag", "app", "setd", "touch", "touch", "touchc"]
     if kind in ("fc", "fr"):
         ks += ["count", "stop"]
     elif last:
@@ -1114,8 +1419,8 @@ def gen_step(rng, kind, last):
         return {"s": k, "name": rng.choice(NAMES)}
     if k == "upd":
         return {"s": "upd", "key": rng.choice(NAMES), "v": rng.randint(0, 3)}
-    if k == "app":
-        return {"s": "app", "v": rng.randint(0, 3)}
+    if k in ("app", "touch", "touchc"):
+        return {"s": k, "v": rng.randint(0, 3)}
     return {"s": "stop", "n": rng.randint(0, 4)}
 
 
@@ -1141,48 +1446,113 @@ def gen_branch(rng, kind=None, nsteps=None, lists=False):
     return sp
 
 
+def _deep(i, depth=8):
+    """a dictionary nested `depth` levels deep with a list at the bottom"""
+    v = [i]
+    for lvl in range(depth):
+        v = {"l%d" % lvl: v}
+    return v
+
+
+def ctx_shapes(i):
+    """the shapes of contexts (as the JSON of a case).  Plain ones: nested dictionaries, lists, tuples of dictionaries
+    (what Zip produces), lists of dictionaries.  Others: the context or something inside it is an instance of a dict
+    subclass (lena.context.Context, OrderedDict, a user class), of a list subclass, a deque, a bytearray, a user
+    object with mutable attributes (instance dictionary / slots)."""
+    plain = [
+        {"n": {"i": i}}, {"k": i, "tags": ["t"]}, {}, {"output": {"filename": "f"}}, {"upd": 5, "variable": {"name": "z"}},
+        {"a": i, "zip": ({"pp": 1}, {"qq": [2]})}, {"lst": [{"u": i}, (3, {"w": [i]})]}, {"x": i},
+        {"variable": {"name": "x", "range": [0, i]}},
+        {"deep": _deep(i)},
+    ]
+    other = [
+        O("lctx", enc({"variable": {"name": "x", "range": [0, i]}})),
+        O("lctx", {"d": {"k": i, "sub": O("lctx", enc({"u": [i]}))}}),
+        O("odict", {"d": {"k": i, "sub": O("mydict", enc({"u": [i]}))}}),
+        {"d": {"ev": O("rec", enc({"name": "x", "hits": [0, i]}))}},
+        {"d": {"ev": O("slot", {"d": {"x": i, "inner": O("rec", enc({"hits": [i]}))}}), "k": i}},
+        {"d": {"lst": O("mylist", [enc({"u": i})]), "dq": O("deque", [[i]])}},
+        {"d": {"raw": O("bytes", [i]), "tags": O("mylist", ["t"])}},
+        O("mydict", {"d": {"tab": {"t": [O("rec", enc({"w": [i]})), i]}}}),
+        {"d": {"objs": O("set", [O("rec", enc({"w": [i]}))]), "k": i}},
+        {"d": {"pt": O("ntup", [i, O("rec", enc({"w": [i]}))]), "k": i}},
+    ]
+    return [enc(c) for c in plain], other
+
+
 def gen_ctx(rng, i):
+    """a context, as JSON"""
+    plain, other = ctx_shapes(i)
     r = rng.random()
     if r < 0.3:
-        return {"n": {"i": i}}
-    if r < 0.5:
-        return {"k": i, "tags": ["t"]}
-    if r < 0.6:
-        return {}
-    if r < 0.7:
-        return {"output": {"filename": "f"}}
-    if r < 0.8:
-        return {"upd": 5, "variable": {"name": "z"}}
-    if r < 0.87:
-        # what Zip produces: a tuple of dictionaries inside the context
-        return {"a": i, "zip": ({"pp": 1}, {"qq": [2]})}
-    if r < 0.92:
-        return {"lst": [{"u": i}, (3, {"w": [i]})]}
-    return {"x": i}
+        return plain[0]
+    if r < 0.45:
+        return plain[1]
+    if r < 0.52:
+        return plain[2]
+    if r < 0.70:
+        return rng.choice(plain[3:])
+    return rng.choice(other)
 
 
-def gen_flow(rng, n, aliased=False, int_only=False):
+def data_shapes(i):
+    """the shapes of mutable data (as the JSON of a case): list, dictionary, and objects of other classes — a user
+    object with mutable attributes (hashable!), dict / list subclasses, deque, bytearray, a tuple that holds mutable
+    objects — with further mutable objects inside"""
+    return [
+        [i], enc({"x": i}),
+        O("rec", enc({"x": i, "hits": [i, i + 1]})),
+        O("slot", enc({"x": i, "hits": [i]})),
+        O("rec", {"d": {"inner": O("rec", enc({"hits": [i]})), "tab": enc({"w": [i]})}}),
+        O("mydict", enc({"x": i, "sub": {"y": [i]}})),
+        O("odict", {"d": {"x": i, "ev": O("slot", enc({"hits": [i]}))}}),
+        O("mylist", [i, [i]]),
+        O("deque", [i, enc({"z": i})]),
+        O("bytes", [i]),
+        {"t": [i, [i]]},
+        {"t": [O("rec", enc({"hits": [i]})), i]},
+        [O("rec", enc({"hits": [i]})), enc({"k": [i]})],
+        {"d": {"ev": O("slot", enc({"hits": [i]})), "dq": O("deque", [i])}},
+        O("set", [O("rec", enc({"hits": [i]}))]),
+        O("fset", [O("slot", enc({"hits": [i]}))]),
+        O("ntup", [i, [i]]),
+        O("rec", enc({"deep": _deep(i)})),
+    ]
+
+
+def gen_data(rng, i):
+    shapes = data_shapes(i)
+    r = rng.random()
+    if r < 0.3:
+        return shapes[0]
+    if r < 0.45:
+        return shapes[1]
+    return rng.choice(shapes[2:])
+
+
+def gen_flow(rng, n, aliased=False, int_only=False, p_obj=0.25):
+    """p_obj: the probability that the data of a value is a mutable object (else an int)"""
     heap, flow = {}, []
     datacells = set()
     k = 0
     for i in range(n):
         it = {"d": i, "c": None}
-        if not int_only and rng.random() < 0.25:
+        if not int_only and rng.random() < p_obj:
             if aliased and k and rng.random() < 0.4:
                 cands = sorted(datacells)
                 if cands:
                     it["d"] = {"cell": int(rng.choice(cands))}
             if not isinstance(it["d"], dict):
-                heap[str(k)] = [i] if rng.random() < 0.6 else enc({"x": i})
+                heap[str(k)] = gen_data(rng, i)
                 datacells.add(str(k))
                 it["d"] = {"cell": k}
                 k += 1
         if rng.random() < 0.8:
-            cands = [t for t, v in heap.items() if isinstance(v, dict) and "d" in v and t not in datacells]
+            cands = [t for t in heap if t not in datacells]
             if aliased and cands and rng.random() < 0.5:
                 it["c"] = int(rng.choice(cands))
             else:
-                heap[str(k)] = enc(gen_ctx(rng, i))
+                heap[str(k)] = gen_ctx(rng, i)
                 it["c"] = k
                 k += 1
         flow.append(it)
@@ -1193,7 +1563,9 @@ def gen_split_case(rng, mode=None, aliased=None, copy_buf=None):
     mode = mode or rng.choice(["run", "run", "run", "fill", "zip"])
     n = rng.randint(0, 7)
     aliased = (rng.random() < 0.15) if aliased is None else aliased
-    heap, flow = gen_flow(rng, n, aliased, int_only=rng.random() < 0.5)
+    # numeric flows (Sum / Mean terminals) / mixed / flows of objects
+    r = rng.random()
+    heap, flow = gen_flow(rng, n, aliased, int_only=r < 0.4, p_obj=0.25 if r < 0.75 else 0.85)
     lists = any(isinstance(it["d"], dict) for it in flow)
     if mode == "run":
         nb = rng.randint(1, 4) if rng.random() < 0.98 else 0
@@ -1219,7 +1591,7 @@ ACC_KINDS = [
     {"a": "mean", "seq": {"count": "n_ev"}, "poe": True},
     {"a": "vmc", "corrected": True, "poe": False}, {"a": "vmc", "corrected": False, "poe": True},
     {"a": "vectorize", "dim": 2}, {"a": "vec_list"}, {"a": "histogram"}, {"a": "sib", "var": "x", "lo": 0, "hi": 3},
-    {"a": "graph"},
+    {"a": "graph"}, {"a": "nphist", "reset": False}, {"a": "nphist", "reset": True},
     {"a": "store"}, {"a": "store_group"}, {"a": "groupby", "key": "g"}, {"a": "keeplast"},
     {"a": "reqsum"}, {"a": "reqstore"},
     {"a": "mean_counts", "names": ["a", "b"]}, {"a": "mean_counts", "names": ["a", "b", "c"]},
@@ -1249,18 +1621,21 @@ def _acc_item(kind, i, c):
 
 
 def _acc_ctx(rng, kind, i):
-    ctx = gen_ctx(rng, i)
-    if kind == "zip" and "zip" in ctx:
+    """a context (JSON) for an accumulator history"""
+    ctx = copy.deepcopy(gen_ctx(rng, i))
+    if kind == "zip" and ("zip" in _jd(ctx) or has_kind(ctx, SET_KINDS)):
         # Zip on contexts that already have a "zip" entry raises TypeError in update_nested (tuple assignment);
-        # not a matter of aliasing
-        ctx = {"a": i}
+        # not a matter of aliasing.  Zip compares the contexts of its branches with ==: two sets of user objects that
+        # are hashed by identity are never equal (the model compares contents)
+        ctx = enc({"a": i})
     if kind == "groupby" and rng.random() < 0.8:
-        ctx = dict(ctx, g=rng.randint(1, 2))
+        _jd(ctx)["g"] = rng.randint(1, 2)
     return ctx
 
 
 def _is_request(acc):
-    return acc["a"] in ("reqsum", "reqstore", "fillrequest") or (acc["a"] == "zip" and all(x["a"] == "reqsum" for x in acc["subs"]))
+    return (acc["a"] in ("reqsum", "reqstore", "fillrequest", "nphist")
+            or (acc["a"] == "zip" and all(x["a"] == "reqsum" for x in acc["subs"])))
 
 
 def _can_reset(acc):
@@ -1292,7 +1667,7 @@ def gen_acc_case(rng, acc=None, nops=None):
                 # another value that shares its context object with an earlier one
                 c = rng.randint(0, k - 1)
             elif rr < 0.87:
-                heap[str(k)] = enc(_acc_ctx(rng, kind, nf))
+                heap[str(k)] = _acc_ctx(rng, kind, nf)
                 c = k
                 k += 1
             hist.append({"f": _acc_item(kind, rng.randint(-1, 4) if kind in ("sib", "sib_multi") else rng.randint(0, 4), c)})
@@ -1335,7 +1710,11 @@ def hist_of_word(kind, word, request=False):
             ctx = {"n": {"i": nf}} if nf % 2 == 0 else {"x": nf}
             if kind == "groupby":
                 ctx["g"] = 1 + (nf % 3) // 2
-            heap[str(k)] = enc(ctx)
+            ctx = enc(ctx)
+            if nf % 3 == 2:
+                # the third context of a history is a lena.context.Context holding a list subclass
+                ctx = O("lctx", {"d": dict(_jd(ctx), tags=O("mylist", ["t"]))})
+            heap[str(k)] = ctx
             hist.append({"f": _acc_item(kind, nf + 1, k)})
             k += 1
             nf += 1
@@ -1352,12 +1731,87 @@ def hist_of_word(kind, word, request=False):
     return heap, hist
 
 
+def kind_cases():
+    """every shape of data and of context (data_shapes, ctx_shapes) systematically: in a Split driven by run, by fill
+    and in a Zip, with branches that change everything reachable in place; every accumulator kind with every shape of
+    context that is not a plain dictionary"""
+    out = []
+    plain, other = ctx_shapes(1)
+    n_ctx = len(plain) + len(other)
+
+    def T(v):
+        return {"s": "touch", "v": v}
+
+    def TC(v):
+        return {"s": "touchc", "v": v}
+
+    def fc(steps, term):
+        return {"kind": "fc", "steps": steps, "term": term}
+
+    def sq(steps):
+        return {"kind": "seq", "steps": steps, "term": None}
+
+    run_sets = [
+        [fc([T(1)], {"a": "keeplast"}), sq([T(2), {"s": "tag", "name": "a"}]), fc([{"s": "setd", "key": "a", "v": 3}], {"a": "store"})],
+        [sq([T(1)]), sq([{"s": "app", "v": 2}, TC(2)]), sq([])],
+    ]
+    fill_sets = [
+        [fc([T(1)], {"a": "store"}), fc([{"s": "app", "v": 2}], {"a": "keeplast"}), fc([T(3)], {"a": "count", "name": "c"})],
+        [fc([T(1), TC(1)], {"a": "keeplast"}), fc([], {"a": "store"})],
+    ]
+    for j in range(len(data_shapes(0))):
+        for mode, sets in (("run", run_sets), ("fill", fill_sets), ("zip", fill_sets)):
+            for bi, branches in enumerate(sets):
+                heap, flow = {}, []
+                for i in range(3):
+                    p, o = ctx_shapes(i)
+                    heap[str(2 * i)] = data_shapes(i)[j]
+                    heap[str(2 * i + 1)] = (p + o)[(j + i) % n_ctx]
+                    flow.append({"d": {"cell": 2 * i}, "c": 2 * i + 1 if i != 1 else None})
+                out.append({"op": "split", "mode": mode, "branches": branches, "bufsize": (2, None)[bi], "copy_buf": True,
+                            "heap": heap, "flow": flow, "aliased": False, "nokw": bool(bi)})
+    ctx_sets = {
+        "run": [fc([TC(1)], {"a": "sum"}), sq([TC(2), {"s": "tag", "name": "a"}]), fc([{"s": "upd", "key": "a", "v": 1}], {"a": "count", "name": "c"}),
+                sq([{"s": "var", "name": "b"}])],
+        "fill": [fc([TC(1)], {"a": "sum"}), fc([{"s": "mkfn", "name": "a"}, TC(2)], {"a": "store"}), fc([], {"a": "count", "name": "c"})],
+    }
+    ctx_sets["zip"] = ctx_sets["fill"]
+    for j in range(n_ctx):
+        for mode in ("run", "fill", "zip"):
+            heap, flow = {}, []
+            for i in range(3):
+                p, o = ctx_shapes(i)
+                heap[str(i)] = (p + o)[j]
+                flow.append({"d": i, "c": i})
+            out.append({"op": "split", "mode": mode, "branches": ctx_sets[mode], "bufsize": 2, "copy_buf": True,
+                        "heap": heap, "flow": flow, "aliased": False, "nokw": True})
+    for acc in ACC_KINDS + ORACLE_ONLY_KINDS:
+        kind = acc_kind(acc)
+        req = {"r": 1} if _is_request(acc) else {"c": 1}
+        for j in range(len(other)):
+            if kind == "zip" and has_kind(other[j], SET_KINDS):
+                continue
+            heap = {}
+            for i in range(2):
+                heap[str(i)] = copy.deepcopy(ctx_shapes(i)[1][j])
+                if kind == "groupby":
+                    _jd(heap[str(i)])["g"] = 1
+            if acc.get("ctx") is not None:
+                heap[str(acc["ctx"])] = copy.deepcopy(ctx_shapes(7)[1][j])
+            hist = [{"f": _acc_item(kind, 1, 0)}, {"f": _acc_item(kind, 2, 1)}, req, req, {"f": _acc_item(kind, 3, 1)}, req]
+            out.append({"op": "acc", "acc": acc, "heap": heap, "hist": hist, "may_raise": False})
+    return out
+
+
 def gen_cases(ctx):
     """a generator: the thorough tier is enumerated lazily"""
     rng = ctx.rng
     thorough = ctx.tier == "thorough"
     # the seeded-style regression scenarios (a branch stopped in the middle of a buffer; Mean with a multi-valued sum_seq)
     for c in fixed_cases():
+        yield c
+    # every kind of object as data and inside contexts
+    for c in kind_cases():
         yield c
     # accumulators: all short histories
     maxlen = 5 if thorough else 4
@@ -1368,8 +1822,8 @@ def gen_cases(ctx):
             if acc.get("ctx") is not None:
                 heap[str(acc["ctx"])] = enc({"init": {"i": 1}})
             yield {"op": "acc", "acc": acc, "heap": heap, "hist": hist, "may_raise": False}
-    n_split = 55000 if thorough else 3000
-    n_acc = 30000 if thorough else 2000
+    n_split = 55000 if thorough else 5000
+    n_acc = 30000 if thorough else 3500
     for _ in range(n_split):
         yield gen_split_case(rng)
     for _ in range(n_acc):
@@ -1417,10 +1871,11 @@ def classify(case, res):
             labels.append("kind:" + b["kind"])
             for s in b["steps"]:
                 labels.append("step:" + s["s"])
+        labels += sorted("object:" + k for k in kinds_in(case["heap"]))
         if "e" in res:
             labels.append("split:raised:" + res["e"])
         return labels
-    labels = ["acc:" + jshort(case["acc"])]
+    labels = ["acc:" + jshort(case["acc"])] + sorted("object:" + k for k in kinds_in(case["heap"]))
     for e in res.get("evs", []):
         if e.get("err"):
             labels.append("acc-error:" + e["err"])
@@ -1473,7 +1928,8 @@ LEVEL_TEXT = ("Lean 4 theorems about a shared-heap (object identity) model of Sp
               "the branches; equality of every branch's event trace (run), resp. of its filling events and of what it then "
               "yields (fill/request, Zip), with the branch run alone (under locality of mutation, proved for the model's "
               "elements; runs without exceptions other than LenaStopFill); freshness of every yielded context over all "
-              "histories (accumulators incl. multi-valued compute loops, sequences, Zip, Split through fill/compute); "
+              "histories (accumulators incl. multi-valued compute loops and NumpyHistogram, sequences, Zip, Split through "
+              "fill/compute); "
               "downstream in-place updates of yielded values change no later response (accumulators). The model is tied to "
               "/repo by a correspondence check on the id() graph of real runs, plus a direct oracle (branch alone vs inside "
               "Split; freshness and mutation-robustness of yielded contexts). Not modelled, oracle only: the FillRequest "
